@@ -387,7 +387,7 @@ def letter_strings(max_len, alphabet=b"AcGtNnR"):
             yield bytes(t)
 
 
-def random_seq(rng, n, width=None, p_other=0.25, alphabet=b"ACGTacgt", other=b"NnNNRYKMSWBDHVnrykm"):
+def random_seq(rng, n, width=None, p_other=0.25, alphabet=b"ACGTacgt", other=b"NnNNRYKMSWBDHVnrykmUu"):
     """
     random residue string of length n made of alternating ACGT runs and other runs; when width is given, run
     boundaries are biased to fall exactly on line boundaries (the case buffer flushes are sensitive to)
